@@ -113,7 +113,16 @@ def run(prog, chk):
     chk.ob("R3.tcp-handler-after-grant", "request_port_forward", ok, rpf.loc, "_tcp_handler set only after the server granted the tcpip-forward request")
     cpf = prog.func("Transport.cancel_port_forward")
     vals = [unparse(v) for (st, t, v) in attr_writes(cpf.node) if t.attr == "_tcp_handler"]
-    chk.ob("R3.tcp-handler-cleared", "cancel_port_forward", vals == ["None"], cpf.loc, "cancel clears the handler (%s)" % vals)
+    fcp = Flow(prog, cpf, env={"self.active": True}, implicit=False)
+    clr = fcp.nodes(lambda n: n.kind == "stmt" and isinstance(n.ast, ast.Assign) and unparse(n.ast.targets[0]) == "self._tcp_handler")
+    chk.ob("R3.tcp-handler-cleared", "cancel_port_forward", vals == ["None"] and bool(clr) and fcp.exit_dominated(guard_nodes=clr), cpf.loc,
+           "an active transport's cancel always clears the handler (%s)" % vals)
+    rx = prog.func("Channel.request_x11")
+    frx = Flow(prog, rx, implicit=False)
+    st_ = [n for (n, c) in frx.nodes_with_call(name="self.transport._set_x11_handler")]
+    wt = [n for (n, c) in frx.nodes_with_call(name="self._wait_for_event")]
+    chk.ob("R3.x11-handler-after-grant", "request_x11", len(st_) == 1 and len(wt) == 1 and frx.dominated(st_, guard_nodes=wt), rx.loc,
+           "the X11 handler is installed only after the server accepted the x11-req (a refused request enables nothing)")
 
     # R4 channel requests --------------------------------------------------------------------------
     hr = prog.func("Channel._handle_request")
